@@ -94,6 +94,27 @@ func scenReplayMP(rep *Report, tier string, seed int64) {
 				b.TX = append(b.TX, g.Batch(h, g.Users[i], []fat2.Transaction{Conversion(g.Users[i].FA(), fat2.PTickerFCT, 10e8, fat2.PTickerPEG)}))
 			}
 		}
+		// an oversubscribed bank pass that also holds requests filled in full (a few units of a
+		// cheap asset convert to 0 PEG: yield = requested = 0): the pass ranges over a map, so
+		// anything carried from one request to the next shows as a difference between processes
+		if h == a.TxConv+1 {
+			for i := 0; i < 3; i++ {
+				b.TX = append(b.TX, g.Batch(h, g.Users[i], []fat2.Transaction{Conversion(g.Users[i].FA(), fat2.PTickerFCT, 1e8, fat2.PTickerINR)}))
+			}
+		}
+		if h == a.ConvLimit+2 || h == a.V4+3 {
+			for i := 0; i < 4; i++ {
+				u := g.Users[i]
+				if bal := w.Balance(u.FA(), fat2.PTickerFCT); bal > 1e10 {
+					b.TX = append(b.TX, g.Batch(h, u, []fat2.Transaction{Conversion(u.FA(), fat2.PTickerFCT, bal/10*(3+uint64(i)), fat2.PTickerPEG)}))
+					rep.Count("replay:oversubscribing-peg-request")
+				}
+				if i < 3 && w.Balance(u.FA(), fat2.PTickerINR) > 100 {
+					b.TX = append(b.TX, g.Batch(h, u, []fat2.Transaction{Conversion(u.FA(), fat2.PTickerINR, 5+uint64(i), fat2.PTickerPEG)}))
+					rep.Count("replay:zero-yield-peg-request")
+				}
+			}
+		}
 		return b
 	})
 	if !ok {
